@@ -232,6 +232,13 @@ func vfGenC20(rt *rapid.T) vfC20Case {
 	cs.Hostile = rapid.IntRange(0, 2).Draw(rt, "hostile") == 0
 	dts := []int64{0, 1, 1000, 150000, 200000, 250000, 1000000, 3600 * 1000000, 400 * 24 * 3600 * 1000000}
 	nfiles := rapid.IntRange(1, 3).Draw(rt, "nfiles")
+	maxSteps := 12
+	if rapid.IntRange(0, 4).Draw(rt, "longhistory") == 0 {
+		// many files with many redraws each (every redraw takes a speed sample; the samples live in a ring that is reused per file)
+		nfiles = rapid.IntRange(2, 14).Draw(rt, "nfiles_long")
+		maxSteps = 40
+		dts = []int64{200000, 250000, 250000, 300000, 1000000, 150000}
+	}
 	for f := 0; f < nfiles; f++ {
 		cs.Evs = append(cs.Evs, vfC20Ev{Op: "name", S: vfGenName(rt, "name"), DtU: rapid.SampledFrom(dts).Draw(rt, "dt")})
 		size := rapid.SampledFrom(vfBigSizes).Draw(rt, "size")
@@ -253,7 +260,7 @@ func vfGenC20(rt *rapid.T) vfC20Case {
 			cs.Evs = append(cs.Evs, vfC20Ev{Op: "presize", V: pre})
 		}
 		cs.Evs = append(cs.Evs, vfC20Ev{Op: "size", V: size - pre})
-		nsteps := rapid.IntRange(0, 12).Draw(rt, "nsteps")
+		nsteps := rapid.IntRange(0, maxSteps).Draw(rt, "nsteps")
 		rem := size - pre
 		cur := int64(0)
 		for i := 0; i < nsteps; i++ {
